@@ -452,7 +452,8 @@ fn parser_family(st: &mut Stats, quick: bool) {
         cases.push((200, StatusCode::OK, w, vec![("content-length".into(), "200".into())], body, true));
     }
     st.count("wire_responses", cases.len() as u64);
-    let depth = if quick { Depth::Single } else { Depth::Pairs };
+    let depth = Depth::Pairs;
+    let _ = quick;
     let part = cases
         .par_iter()
         .fold(Stats::default, |mut s, (code, sc, wire, exp, body, chunked)| {
